@@ -31,6 +31,7 @@ VERIF = os.path.dirname(os.path.dirname(os.path.abspath(__file__)))
 PY = "/venv/bin/python"
 REPO = os.environ.get("VERIF_REPO", "/repo")
 NPROC = int(os.environ.get("VERIF_JOBS", "16"))
+OUT = os.environ.get("VERIF_OUT", VERIF)  # where evidence/ and replays/ go (selftests redirect it)
 
 
 def tree_identity():
@@ -176,7 +177,7 @@ def run(mod, check, prop, args, scratch, t0):
         else:
             new.append(v)
 
-    rep_dir = os.path.join(VERIF, "replays", prop)
+    rep_dir = os.path.join(OUT, "replays", prop)
     replay_paths = []
     if new:
         os.makedirs(rep_dir, exist_ok=True)
@@ -216,8 +217,8 @@ def run(mod, check, prop, args, scratch, t0):
         "coverage": coverage, "assumptions": list(getattr(mod, "ASSUMPTIONS", [])),
         "wall_s": round(time.time() - t0, 2), "violations": len(new),
     }
-    os.makedirs(os.path.join(VERIF, "evidence"), exist_ok=True)
-    with open(os.path.join(VERIF, "evidence", f"{prop}.json"), "w", encoding="utf-8") as f:
+    os.makedirs(os.path.join(OUT, "evidence"), exist_ok=True)
+    with open(os.path.join(OUT, "evidence", f"{prop}.json"), "w", encoding="utf-8") as f:
         json.dump(evidence, f, indent=1, ensure_ascii=False, default=str)
 
     print(f"{prop} tier={args.tier} seed={args.seed}: {agg['evaluations']} evaluations, {distinct_n} distinct non-trivial, "
